@@ -52,7 +52,13 @@ entered; `ok` iff every command ran and succeeded).
   last attempt at `t` succeeded, at a time ≥ `m`".  `C04_partial_timestamp`: without a positive
   `generates` pattern (`NoPosGenerates`) simply skip ⇒ goodRun.  `C04_timestamp_with_generates_false`:
   the disjunct is needed.
-The hash `H` is arbitrary throughout (fingerprints are compared, never inverted).
+* `C04_partial_src` — the same with the conclusion in terms of NAMES AND CONTENTS (ghost `Attempt.src`,
+  `goodRunSrc`): "the most recent attempt for the present (names, contents) succeeded", under the explicit
+  no-collision hypothesis `NoCollision` (F8B's injective encoding: `flatL_lensL_inj`);
+  `C04_constant_hash_vacuous`: why — `C04_partial` alone holds for a constant hash.
+  `C04_partial_queries`: `--status` / `--dry` / `--list --json` verdicts are as sound as a run.
+  `C04_counterexample_concurrent` (open): a second activation of the task in the same invocation.
+The hash `H` is arbitrary in `C04_partial` (fingerprints are compared, never inverted).
 -/
 namespace Props.C04
 open TaskModel.Finger
@@ -238,7 +244,7 @@ theorem inv_empty : Inv pr State.empty := by
 /-- one logged attempt at task `j` together with the matching change of the store keeps `Inv` -/
 theorem inv_of_effect (hd : KeysDistinct pr) {s s' : State} (hinv : Inv pr s) {j : Nat} {tj : Task}
     (htj : pr.tasks[j]? = some tj) (fp : Bytes) (now : Nat) (ok : Bool)
-    (hlog : s'.log = s.log ++ [⟨j, fp, now, ok⟩])
+    {src : List (Bytes × Bytes)} (hlog : s'.log = s.log ++ [⟨j, fp, now, ok, src⟩])
     (hother : ∀ x, (Cs tj → x ≠ sumKey tj) → aget s'.sums x = aget s.sums x)
     (hkey : Cs tj → (ok = true ∧ (aget s'.sums (sumKey tj) = some fp ∨ aget s'.sums (sumKey tj) = aget s.sums (sumKey tj))) ∨
                     (ok = false ∧ aget s'.sums (sumKey tj) = none)) :
@@ -497,6 +503,105 @@ theorem C04_partial_queries (hd : NamesDistinct pr) (hist : List Step) (ha : ∀
       rw [List.getElem?_map, ht] at h
       simpa using h
 
+/-! ## The conclusion in terms of names and contents (ghost `Attempt.src`) -/
+
+/-- every logged attempt carries the fingerprint OF its ghost source list -/
+def LogOk (H : Hashes) (s : State) : Prop := ∀ a ∈ s.log, a.fp = fpOfList H a.src
+
+theorem logOk_hist (hist : List Step) (s : State) (h : LogOk H s) : LogOk H (runHist Cfg.fixed H pr hist s).1 := by
+  induction hist generalizing s with
+  | nil => exact h
+  | cons st rest ih =>
+    simp only [runHist]
+    apply ih
+    cases st with
+    | op o =>
+      intro a ha
+      simp only [step, (applyOp_fields pr o s).2.1] at ha
+      exact h a ha
+    | inv j m e =>
+      intro a ha
+      simp only [step] at ha
+      rcases invoke_log_src H pr j m e s with hl | ⟨b, hl, hb⟩
+      · rw [hl] at ha; exact h a ha
+      · rw [hl, List.mem_append, List.mem_singleton] at ha
+        rcases ha with ha | ha
+        · exact h a ha
+        · rw [ha]; exact hb
+
+theorem lastAtt_congr (p q : Attempt → Bool) : ∀ (l : List Attempt), (∀ a ∈ l, p a = q a) → lastAtt p l = lastAtt q l
+  | [], _ => rfl
+  | a :: l, h => by
+    simp only [lastAtt]
+    rw [lastAtt_congr p q l (fun x hx => h x (by simp [hx])), h a (by simp)]
+
+/-- the explicit hypothesis about the uninterpreted hashes: the checksum of the PRESENT sources of `t`
+collides with that of no logged attempt at `t` (for each such pair: `FpInj`) -/
+def NoCollision (H : Hashes) (pr : Proj) (i : Nat) (t : Task) (s : State) : Prop :=
+  ∀ a ∈ s.log, a.task = i → fpOfList H a.src = fpOfList H (srcList pr t s.files) →
+    flatL a.src = flatL (srcList pr t s.files) ∧ lensL a.src = lensL (srcList pr t s.files)
+
+/-- **C04_partial, stated for names and contents**: `C04_partial` compares FINGERPRINTS, so it would
+also hold for a hash that maps everything to one value.  With the ghost source list of every attempt
+(`Attempt.src`), the injective encoding of F8B (`flatL_lensL_inj`) and "no collision" as an explicit
+hypothesis, the conclusion is the property's own: if a run reports the task up to date, then the MOST
+RECENT ATTEMPT AT ITS COMMANDS FOR THE PRESENT (names, contents) OF ITS SOURCES ran them all
+successfully, and the generates exist. -/
+theorem C04_partial_src (hd : NamesDistinct pr) (hist : List Step) (ha : ∀ st ∈ hist, Allowed st)
+    (i : Nat) (t : Task) (e : Env) (ht : pr.tasks[i]? = some t) (hm : t.method = .checksum)
+    (hsrc : t.sources.isEmpty = false)
+    (hnc : NoCollision H pr i t (runHist Cfg.fixed H pr hist State.empty).1)
+    (hskip : (invoke Cfg.fixed H pr i .run e (runHist Cfg.fixed H pr hist State.empty).1).2.skipped = true) :
+    goodRunSrc pr i t (runHist Cfg.fixed H pr hist State.empty).1 = true := by
+  have hgood := C04_partial H pr hd hist ha i t e ht hm hsrc hskip
+  have hlog := logOk_hist H pr hist State.empty (by intro a ha; simp [State.empty] at ha)
+  generalize (runHist Cfg.fixed H pr hist State.empty).1 = s at *
+  have hcongr : lastAtt (fun a => decide (a.task = i ∧ a.fp = fpNow H pr t s.files)) s.log =
+      lastAtt (fun a => decide (a.task = i ∧ a.src = srcList pr t s.files)) s.log := by
+    apply lastAtt_congr
+    intro a hmem
+    by_cases hti : a.task = i
+    · have hfp := hlog a hmem
+      by_cases hs : a.src = srcList pr t s.files
+      · have : a.fp = fpNow H pr t s.files := by rw [hfp, hs, fpNow_eq_fpOfList]
+        simp [hti, hs, this]
+      · have : ¬ a.fp = fpNow H pr t s.files := by
+          intro hc
+          rw [hfp, fpNow_eq_fpOfList] at hc
+          have := hnc a hmem hti hc
+          exact hs (flatL_lensL_inj _ _ this.1 this.2)
+        simp [hti, hs, this]
+    · simp [hti]
+  unfold goodRun at hgood
+  unfold goodRunSrc
+  simp only [hm] at hgood
+  rw [← hcongr]
+  exact hgood
+
+/-- non-vacuity: the history of the example above; the hashes `hId`; no collision; the task is skipped
+and the last attempt for the present names and contents succeeded -/
+example :
+    let t := mk [97, 45, 98] .checksum false 2
+    let pr := pj [t, mk [97, 58, 98] .checksum true 1]
+    let hist : List Step := [w0, .inv 0 .run { env 10 with failAt := some 1 }, .inv 0 .dry (env 20), run 0 50, .op (.touch 0 70)]
+    let s := (runHist Cfg.fixed hId pr hist State.empty).1
+    (invoke Cfg.fixed hId pr 0 .run (env 99) s).2.skipped = true ∧ goodRunSrc pr 0 t s = true ∧
+    (∀ a ∈ s.log, a.task = 0 → fpOfList hId a.src = fpOfList hId (srcList pr t s.files) →
+      flatL a.src = flatL (srcList pr t s.files) ∧ lensL a.src = lensL (srcList pr t s.files)) := by
+  refine ⟨by decide, by decide, ?_⟩
+  decide
+
+/-- **why the ghost is needed**: with a CONSTANT hash `C04_partial`'s conclusion says nothing about
+contents — after a successful run and an edit the task is skipped, `goodRun` (fingerprints equal: both
+are the constant) holds, while `goodRunSrc` is false: no attempt was made for the present contents.
+(`NoCollision` fails for that hash, as it must.) -/
+theorem C04_constant_hash_vacuous :
+    let Hc : Hashes := ⟨fun _ => [], fun _ => []⟩
+    let t := mk [120] .checksum false 1
+    let s := (runHist Cfg.fixed Hc (pj [t]) [w0, run 0 10, .op (.write 0 [2] 15)] State.empty).1
+    (invoke Cfg.fixed Hc (pj [t]) 0 .run (env 99) s).2.skipped = true ∧ goodRun Hc (pj [t]) 0 t s = true ∧
+    goodRunSrc (pj [t]) 0 t s = false := by decide
+
 /-! ## The declined prompt (F31) -/
 
 /-- **a declined prompt leaves no checksum entry**: a run of a checksum task that is not up to
@@ -547,7 +652,7 @@ theorem C04_sibling_cancelled_no_entry (cfg : Cfg) {i : Nat} {t : Task} (ht : pr
     aget (invoke cfg H pr i .run e s).1.sums (sumKey t) = none ∧
     (invoke cfg H pr i .run e s).2.exit = .failed ∧ (invoke cfg H pr i .run e s).2.ran = [] ∧
     (invoke cfg H pr i .run e s).2.skipped = false ∧
-    (invoke cfg H pr i .run e s).1.log = s.log ++ [⟨i, fpNow H pr t s.files, e.now, false⟩] := by
+    (invoke cfg H pr i .run e s).1.log = s.log ++ [⟨i, fpNow H pr t s.files, e.now, false, srcList pr t s.files⟩] := by
   have hint : interrupted t e = true := by simp [interrupted, hcan, hst]
   rw [invoke_run cfg H pr ht e s (checkErr_gset t e s.files hg)]
   simp only [hint, Bool.not_true, Bool.and_false, Bool.false_eq_true, if_false]
@@ -877,7 +982,7 @@ theorem invTs_body {i : Nat} {t : Task} (hts : Ts t) (e : Env) (hk : e.killAt = 
       simp at hm
     | true =>
       rw [(hok rfl).2] at hm
-      refine ⟨hle m hm, ⟨i, fpNow H pr t s1.files, e.now, true⟩, ?_, rfl, hle m hm⟩
+      refine ⟨hle m hm, ⟨i, fpNow H pr t s1.files, e.now, true, srcList pr t s1.files⟩, ?_, rfl, hle m hm⟩
       rw [hlog, lastAtt_append]
       simp
 
@@ -948,7 +1053,7 @@ theorem invTs_step (hd : TsKeysDistinct pr) {i : Nat} {t : Task} (ht : pr.tasks[
           rw [invoke_marks_other H pr htj m e s _ hx] at hm0
           obtain ⟨h1, a, ha1, ha2, ha3⟩ := hinv' m0 hm0
           refine ⟨h1, a, ?_, ha2, ha3⟩
-          rcases invoke_log H pr j m e s with hl | ⟨fp, ok, hl⟩
+          rcases invoke_log H pr j m e s with hl | ⟨fp, ok, src, hl⟩
           · rw [hl]; exact ha1
           · rw [hl, lastAtt_append]
             simp [hij, ha1]
